@@ -22,6 +22,7 @@ type StoreOp struct {
 	Err     string // error returned to the cache, "" if none
 	NotExist bool
 	Fault   string // name of the injected fault, "" if none
+	Fg      bool   // arrived on the goroutine that runs the current exchange's RoundTrip
 }
 
 // Fault is an injected store misbehaviour.
@@ -49,6 +50,7 @@ type RecStore struct {
 	mu   sync.Mutex
 	ops  []StoreOp
 	cur  int // current exchange id
+	curG uint64
 	foot map[string]int
 }
 
@@ -62,6 +64,7 @@ func (s *RecStore) SetCurrent(ex int) {
 	}
 	s.mu.Lock()
 	s.cur = ex
+	s.curG = goid()
 	s.mu.Unlock()
 }
 
@@ -77,7 +80,7 @@ func (s *RecStore) begin(op, key string) (int, *Fault) {
 	}
 	s.mu.Lock()
 	seq := len(s.ops)
-	s.ops = append(s.ops, StoreOp{Seq: seq, Exch: s.cur, Op: op, Key: key})
+	s.ops = append(s.ops, StoreOp{Seq: seq, Exch: s.cur, Op: op, Key: key, Fg: goid() == s.curG})
 	plan := s.Plan
 	s.mu.Unlock()
 	if plan != nil {
